@@ -528,6 +528,18 @@ static void run_op(void)
 	}
 }
 
+static void emit_dense_bits(of_mod2dense *m, long p, long q)
+{
+	jb_printf("[");
+	for (long i = 0; i < p; i++) {
+		jb_printf(i ? ",[" : "[");
+		long n = 0;
+		for (long j = 0; j < q; j++) if (of_mod2dense_get(m, (UINT32)i, (UINT32)j)) jb_printf(n++ ? ",%ld" : "%ld", j);
+		jb_printf("]");
+	}
+	jb_printf("]");
+}
+
 /* solve mode p q L  <p groups: n c..>  <p groups: isnull n b..> */
 static void do_solve(void)
 {
@@ -602,6 +614,25 @@ static void do_solve(void)
 		jb_printf("]");
 	}
 	jb_printf("]");
+	/* the matrix the solver worked on (rows swapped through the row-pointer table, eliminated in place) is still a
+	 * dense matrix: copying it to a fresh one, and copying a fresh one over it, must give equal bit matrices */
+	{
+		LIB_ENTER(-3);
+		of_mod2dense *m2 = of_mod2dense_allocate((UINT32)p, (UINT32)q);
+		of_mod2dense_copy(m, m2);
+		LIB_LEAVE();
+		jb_printf(",\"cs\":"); emit_dense_bits(m, p, q); jb_printf(",\"cd\":"); emit_dense_bits(m2, p, q);
+		LIB_ENTER(-3);
+		of_mod2dense_clear(m2);
+		for (long i = 0; i < p; i++) for (long j = (i * 7) % 3; j < q; j += 3) of_mod2dense_set(m2, (UINT32)i, (UINT32)j, 1);
+		LIB_LEAVE();
+		jb_printf(",\"rs\":"); emit_dense_bits(m2, p, q);
+		LIB_ENTER(-3);
+		of_mod2dense_copy(m2, m);
+		LIB_LEAVE();
+		jb_printf(",\"rd\":"); emit_dense_bits(m, p, q);
+		LIB_ENTER(-3); of_mod2dense_free(m2); LIB_LEAVE();
+	}
 	end_op();
 	for (long i = 0; i < p; i++) if (ct[i]) free(ct[i]);
 	for (long j = 0; j < q; j++) if (vt[j]) free(vt[j]);
